@@ -1,64 +1,64 @@
 // REPLAY for property C13, harness k_inflate_protocol (unit K-inflate, engine kani)
 // Failed obligations:
-//   OBL:inflate.data_error_is_sticky [C13 C04]  at miniz_oxide/src/inflate/stream.rs:640:13 in function inflate::stream::verif_inflate_stream::k_inflate_protocol
+//   OBL:inflate.buf_error_only_for_starved_truncated_or_no_room_on_finish [C13]  at miniz_oxide/src/inflate/stream.rs:702:17 in function inflate::stream::verif_inflate_stream::k_inflate_protocol
 // no-failing-input-found: the verifier reported the failed obligation without a concrete model.
 // Verifier output (tail):
-//   Check 568: <core::result::Result<MZStatus, MZError> as core::cmp::PartialEq>::eq.pointer_dereference.23
+//   Check 574: <core::result::Result<MZStatus, MZError> as core::cmp::PartialEq>::eq.pointer_dereference.23
 //   	 - Status: SUCCESS
 //   	 - Description: "dereference failure: pointer outside object bounds"
 //   	 - Location: ../../../../../home/runner/.rustup/toolchains/nightly-2026-08-21-x86_64-unknown-linux-gnu/lib/rustlib/src/rust/library/core/src/result.rs:554:16 in function <core::result::Result<MZStatus, MZError> as core::cmp::PartialEq>::eq
 //   
-//   Check 569: <core::result::Result<MZStatus, MZError> as core::cmp::PartialEq>::eq.pointer_dereference.24
+//   Check 575: <core::result::Result<MZStatus, MZError> as core::cmp::PartialEq>::eq.pointer_dereference.24
 //   	 - Status: SUCCESS
 //   	 - Description: "dereference failure: invalid integer address"
 //   	 - Location: ../../../../../home/runner/.rustup/toolchains/nightly-2026-08-21-x86_64-unknown-linux-gnu/lib/rustlib/src/rust/library/core/src/result.rs:554:16 in function <core::result::Result<MZStatus, MZError> as core::cmp::PartialEq>::eq
 //   
-//   Check 570: <core::result::Result<MZStatus, MZError> as core::cmp::PartialEq>::eq.pointer_dereference.25
+//   Check 576: <core::result::Result<MZStatus, MZError> as core::cmp::PartialEq>::eq.pointer_dereference.25
 //   	 - Status: SUCCESS
 //   	 - Description: "dereference failure: pointer NULL"
 //   	 - Location: ../../../../../home/runner/.rustup/toolchains/nightly-2026-08-21-x86_64-unknown-linux-gnu/lib/rustlib/src/rust/library/core/src/result.rs:554:16 in function <core::result::Result<MZStatus, MZError> as core::cmp::PartialEq>::eq
 //   
-//   Check 571: <core::result::Result<MZStatus, MZError> as core::cmp::PartialEq>::eq.pointer_dereference.26
+//   Check 577: <core::result::Result<MZStatus, MZError> as core::cmp::PartialEq>::eq.pointer_dereference.26
 //   	 - Status: SUCCESS
 //   	 - Description: "dereference failure: pointer invalid"
 //   	 - Location: ../../../../../home/runner/.rustup/toolchains/nightly-2026-08-21-x86_64-unknown-linux-gnu/lib/rustlib/src/rust/library/core/src/result.rs:554:16 in function <core::result::Result<MZStatus, MZError> as core::cmp::PartialEq>::eq
 //   
-//   Check 572: <core::result::Result<MZStatus, MZError> as core::cmp::PartialEq>::eq.pointer_dereference.27
+//   Check 578: <core::result::Result<MZStatus, MZError> as core::cmp::PartialEq>::eq.pointer_dereference.27
 //   	 - Status: SUCCESS
 //   	 - Description: "dereference failure: deallocated dynamic object"
 //   	 - Location: ../../../../../home/runner/.rustup/toolchains/nightly-2026-08-21-x86_64-unknown-linux-gnu/lib/rustlib/src/rust/library/core/src/result.rs:554:16 in function <core::result::Result<MZStatus, MZError> as core::cmp::PartialEq>::eq
 //   
-//   Check 573: <core::result::Result<MZStatus, MZError> as core::cmp::PartialEq>::eq.pointer_dereference.28
+//   Check 579: <core::result::Result<MZStatus, MZError> as core::cmp::PartialEq>::eq.pointer_dereference.28
 //   	 - Status: SUCCESS
 //   	 - Description: "dereference failure: dead object"
 //   	 - Location: ../../../../../home/runner/.rustup/toolchains/nightly-2026-08-21-x86_64-unknown-linux-gnu/lib/rustlib/src/rust/library/core/src/result.rs:554:16 in function <core::result::Result<MZStatus, MZError> as core::cmp::PartialEq>::eq
 //   
-//   Check 574: <core::result::Result<MZStatus, MZError> as core::cmp::PartialEq>::eq.pointer_dereference.29
+//   Check 580: <core::result::Result<MZStatus, MZError> as core::cmp::PartialEq>::eq.pointer_dereference.29
 //   	 - Status: SUCCESS
 //   	 - Description: "dereference failure: pointer outside object bounds"
 //   	 - Location: ../../../../../home/runner/.rustup/toolchains/nightly-2026-08-21-x86_64-unknown-linux-gnu/lib/rustlib/src/rust/library/core/src/result.rs:554:16 in function <core::result::Result<MZStatus, MZError> as core::cmp::PartialEq>::eq
 //   
-//   Check 575: <core::result::Result<MZStatus, MZError> as core::cmp::PartialEq>::eq.pointer_dereference.30
+//   Check 581: <core::result::Result<MZStatus, MZError> as core::cmp::PartialEq>::eq.pointer_dereference.30
 //   	 - Status: SUCCESS
 //   	 - Description: "dereference failure: invalid integer address"
 //   	 - Location: ../../../../../home/runner/.rustup/toolchains/nightly-2026-08-21-x86_64-unknown-linux-gnu/lib/rustlib/src/rust/library/core/src/result.rs:554:16 in function <core::result::Result<MZStatus, MZError> as core::cmp::PartialEq>::eq
 //   
-//   Check 576: inflate::stream::inflate_loop.unwind.0
+//   Check 582: inflate::stream::inflate_loop.unwind.0
 //   	 - Status: SUCCESS
 //   	 - Description: "unwinding assertion loop 0"
 //   	 - Location: miniz_oxide/src/inflate/stream.rs:307:5 in function inflate::stream::inflate_loop
 //   
 //   
 //   SUMMARY:
-//    ** 1 of 573 failed (6 unreachable)
+//    ** 1 of 579 failed (6 unreachable)
 //   
 //    ** 3 of 3 cover properties satisfied
 //   
-//   Failed Checks: "OBL:inflate.data_error_is_sticky [C13 C04]"
-//    File: "miniz_oxide/src/inflate/stream.rs", line 640, in inflate::stream::verif_inflate_stream::k_inflate_protocol
+//   Failed Checks: "OBL:inflate.buf_error_only_for_starved_truncated_or_no_room_on_finish [C13]"
+//    File: "miniz_oxide/src/inflate/stream.rs", line 702, in inflate::stream::verif_inflate_stream::k_inflate_protocol
 //   
 //   VERIFICATION:- FAILED
-//   Verification Time: 47.22219s
+//   Verification Time: 39.60288s
 //   
 //   Manual Harness Summary:
 //   Verification failed for - inflate::stream::verif_inflate_stream::k_inflate_protocol
